@@ -1,6 +1,7 @@
 let props : (string * (module Frame.PROP)) list = [
   ("C10", (module C10));
   ("C11", (module C11));
+  ("C13", (module C13));
   ("C15", (module C15));
 ]
 
